@@ -30,6 +30,30 @@ CLAIMED.update({
             "At d == T and for instants tied with the cancel either outcome is accepted; with lateness profile ties are widened by the maximal lateness."),
 })
 
+SCOPE_NOTE = ("Shadow-environment oracle over public API only (one CPython peek: Task._callbacks to identify the owning TaskGroup, "
+              "degrades to silence); CPython 3.12.1 TaskGroup semantics trusted, the one place where it drops an external cancel "
+              "(group already aborting) is exempted and counted.")
+CLAIMED.update({
+    "C01": ("exploration", "3 (C01)", "deterministic simulation: generated scope/update program trees run under SimLoop, shadow-environment oracle in lock-step (program shape is the deciding dimension; schedule dimension = completion order of concurrently entered disposables)",
+            "Seeded search over nested scope/update programs with probes at every position; fault-free profile of the engine that C02 runs with faults.", SCOPE_NOTE),
+    "C02": ("fault_enumeration", "3 (C02)", "deterministic simulation with fault injection: body raise, failing spawned tasks, disposable enter/exit failures, external cancel swept over every loop iteration of the fault-free twin; before/after observation of state, log scope and owning task group around every block",
+            "For sampled programs the external cancel is enumerated over every loop iteration (crash-point sweep); other faults are sampled. Restore is judged by comparing the surrounding code's observations before and after each block.", SCOPE_NOTE),
+    "C03": ("exploration", "3 (C03)", "deterministic simulation: 2..4 actors (ctx.spawn / create_task) interleaved at every suspension point by the seeded scheduler, per-actor shadow environments",
+            "Seeded search over interleavings of concurrently running scope programs; every actor probes after every operation.", SCOPE_NOTE),
+    "C06": ("fault_enumeration", "3 (C06)", "deterministic simulation: spawned-task programs with plain/held gates, body raise, child failure, external cancel swept over loop iterations; join check at the instant `async with` returns, deadlock detector",
+            "Task done() is checked at the instant control returns from every async scope; hangs are loop deadlocks with all gates released; cancel positions are enumerated over the loop iterations of sampled runs.", SCOPE_NOTE),
+    "C07": ("fault_enumeration", "3 (C07)", "deterministic simulation: one external Task.cancel() swept over every loop iteration of the fault-free twin (landing points classified: in enter, body, exit-disposables, exit-wait), ctx.cancel/check_cancellation ops",
+            "Enumeration of the cancel position over all loop iterations of sampled programs; the victim must end cancelled, blocked children must end cancelled, check_cancellation must agree with the recorded cancel requests.", SCOPE_NOTE),
+    "C08": ("fault_enumeration", "3 (C08)", "deterministic simulation: disposable doubles failing/suspending in enter and exit, all completion orders, body raise, cancel swept over loop iterations; enter/exit call-log and exception-reachability oracle at quiescence",
+            "Fault subsets (enter/exit raise, suspend) are sampled, cancel positions enumerated for sampled programs; exactly-once entry/exit is evaluated at quiescence.", SCOPE_NOTE),
+    "C09": ("exploration", "3 (C09)", "deterministic simulation: scope trees whose children run in spawned or detached tasks that may outlive the parent; seeded linearisation of enter/exit events; completion-callback history oracle at quiescence with virtual time",
+            "Seeded search over linearisations; callbacks checked for exactly-once, after-subtree, eventually, stable is_completed/time.", SCOPE_NOTE + " time.monotonic in context/metrics.py is the virtual clock."),
+    "C10": ("exploration", "3 (C10)", "deterministic simulation: record ops in concurrently running actors with replace/sum/concat/raising merges; reference left fold and depth-first merged view compared in completion callbacks and at quiescence",
+            "Seeded search over record placements and interleavings; values read from ScopeMetrics obtained through completion callbacks.", SCOPE_NOTE),
+    "C19": ("exploration", "3 (C19)", "deterministic simulation: scope trees with optional own logger / trace id and adversarial scope names, log ops in creating and spawned actors, uuid4 seam; captured LogRecords compared with the shadow scope stack",
+            "Seeded search; the decisive dimension is program shape, the simulator contributes spawned-task placement, the uuid seam and replay.", SCOPE_NOTE),
+})
+
 NOT_YET = {
 }
 
